@@ -179,6 +179,47 @@ def run(ctx):
             okc, detail = False, "subninja scope is not a child of the current scope"
     r.check(okc, "include|scope-sharing", "", detail or "expected two enterFile calls", g)
 
+    # ---------------------------------------------------------------- rules are scoped like variables
+    rs = rep.rule("R-RULE-SCOPE-CHAIN", "a build statement resolves its rule name the way variables are resolved: in the current scope, then in the enclosing "
+                                        "scopes (a subninja file may use the rules of the files above it, and the built-in phony rule); a duplicate is diagnosed "
+                                        "only within one scope", floor=3)
+    bd = prog.fn("ManifestLoaderImpl::actOnBeginBuildDecl")
+    lb = prog.fn("ninja::Scope::lookupBinding")
+    walks_vars = any(x.get("k") == "member" and x.get("n") == "parent" for x in lb.nodes) and any((c.get("fn") or "").endswith("Scope::lookupBinding") for c in lb.calls())
+    rs.check(walks_vars, "Scope::lookupBinding|walks-parents", "", "variable lookup does not fall back to the parent scope", lb)
+
+    def walks_parents(fn_, depth=0):
+        """does fn_ (or a Scope method it calls) consult `parent` / getParent()?"""
+        if any(x.get("k") == "member" and x.get("n") == "parent" for x in fn_.nodes) or any((c.get("fn") or "").endswith("Scope::getParent") for c in fn_.calls()):
+            return True
+        if depth < 2:
+            for c in fn_.calls():
+                nm = c.get("fn") or ""
+                if "ninja::Scope::" in nm and not nm.endswith(("getRules", "getBindings")):
+                    for g_ in prog.fns(nm):
+                        if g_ is not fn_ and walks_parents(g_, depth + 1):
+                            return True
+        return False
+    finds = [c for c in bd.calls() if (c.get("fn") or "").split("::")[-1] == "find" and "getRules" in expr_str(c.child("obj"))]
+    scope_calls = [c for c in bd.calls() if "ninja::Scope::" in (c.get("fn") or "") and "ule" in (c.get("fn") or "").split("::")[-1] and
+                   not (c.get("fn") or "").endswith("getRules")]
+    ok = False
+    why = "the rule name is looked up in the current scope only: a subninja file cannot use a rule (or phony) declared above it"
+    if scope_calls:
+        ok = any(walks_parents(g_) for c in scope_calls for g_ in prog.fns(c.get("fn")))
+    if not ok and finds:
+        # an explicit loop over the scope chain around the find
+        for c in finds:
+            loops = [a for a in bd.ancestors(c) if a.get("k") in ("for", "while", "do")]
+            if any(any((x.get("fn") or "").endswith("Scope::getParent") for x in l.walk() if x.get("k") == "call") for l in loops):
+                ok = True
+    if not finds and not scope_calls:
+        why = "actOnBeginBuildDecl no longer resolves the rule name through the scope"
+    rs.check(ok, "actOnBeginBuildDecl|rule-lookup-walks-parents", "", why, bd, (finds or scope_calls or [None])[0])
+    rdcl = prog.fn("ManifestLoaderImpl::actOnBeginRuleDecl")
+    okd = any("getCurrentScope" in expr_str(c.child("obj")) for c in rdcl.calls() if "obj" in c and "getRules" in expr_str(c)) and not walks_parents(rdcl)
+    rs.check(okd, "actOnBeginRuleDecl|duplicate-only-in-own-scope", "", "a rule declaration is checked against / stored in something other than the current scope", rdcl)
+
     # ---------------------------------------------------------------- escapes
     r = rep.rule("R-ESCAPES", "evalString handles exactly Ninja's $-escapes ($\\n, $ , $:, $$, ${name}, $name) and reports everything else", floor=3)
     f = [x for x in prog.fns("ManifestLoaderImpl::evalString") if len(x.params) == 5]
@@ -288,6 +329,15 @@ def var_assigned_from(f, call):
 
 
 VARIANTS = [
+    dict(name="rule-lookup-current-scope-only", file="lib/Ninja/ManifestLoader.cpp",
+         old="    Rule* rule = getCurrentScope().lookupRule(name);", new="    auto rit = getCurrentScope().getRules().find(name);\n    Rule* rule = rit == getCurrentScope().getRules().end() ? nullptr : rit->second;",
+         expect=("R-RULE-SCOPE-CHAIN", "rule-lookup-walks-parents")),
+    dict(name="scope-rule-lookup-ignores-parent", file="include/llbuild/Ninja/Manifest.h",
+         old="    if (parent)\n      return parent->lookupRule(name);\n\n    return nullptr;", new="    return nullptr;", expect=("R-RULE-SCOPE-CHAIN", "rule-lookup-walks-parents")),
+    dict(name="benign-rule-lookup-explicit-loop", file="lib/Ninja/ManifestLoader.cpp",
+         old="    Rule* rule = getCurrentScope().lookupRule(name);",
+         new="    Rule* rule = nullptr;\n    for (const Scope* sc = &getCurrentScope(); sc && !rule; sc = sc->getParent()) {\n      auto rit = sc->getRules().find(name);\n      if (rit != sc->getRules().end()) rule = rit->second;\n    }",
+         expect=None),
     dict(name="keyword-short-compare", file="lib/Ninja/Lexer.cpp",
          old='if (memcmp("include", result.start, 7) == 0)', new='if (memcmp("include", result.start, 6) == 0)',
          expect=("R-KEYWORD-TABLE", "include")),
